@@ -67,6 +67,16 @@ CLAIMED = {
                 text="lookup/convert/format/parse templates are instantiated for each duration type and compared with exact floor "
                      "arithmetic at every remainder class near the epoch and at each representation's limits.",
                 note="values whose whole-second count does not fit time_point<seconds> are documented UB and not passed", ref="3/C18"),
+    "C13": dict(cat="exploration", tech="ThreadSanitizer stress with fresh first-load races + stateless DFS over loader schedules at hook granularity + differential against single-threaded answers",
+                text="Hundreds of barrier-released rounds with up to 64 threads race first loads of fresh names while hammering shared zones, "
+                     "under -fsanitize=thread with a monitor that adds no synchronisation on the observed paths; every answer is compared "
+                     "with the single-threaded one and zone identity across threads is checked; all orders of the loader's critical "
+                     "sections for 2-3 (thorough 4) threads are enumerated by parking threads at the load hooks.",
+                note="schedule enumeration at hook granularity; TSan sees only interleavings that occurred", ref="3/C13"),
+    "C20": dict(cat="exploration", tech="offline checker over the factory's own event log (once per name, serial, on the loading thread, never for internal names) from enumerated schedules and stress runs",
+                text="The replaced zone_info_source_factory logs enter/exit with thread id and a global sequence number; the log of every "
+                     "enumerated schedule (threads held inside the factory in every order) and of every stress round is checked against "
+                     "the documented contract.", note="sequence numbers come from one relaxed atomic counter; overlap = an enter between another invocation's enter and exit", ref="3/C20"),
 }
 
 PENDING = {}
